@@ -34,7 +34,8 @@ CLAIMS = {
               "the same field of `self` in Input/Output/Global::merge, no merge assigns a constant to a field of self, all "
               "mutation in PartiallySignedTransaction::merge is dominated by the unique-id comparison with a UniqueIdMismatch "
               "error edge and sub-merge errors propagate, and a predicate-abstraction walk of the xpub key-source branch over the "
-              "seven classes of key-source pairs yields the documented keep/insert/conflict table without a panic. Conflicting "
+              "seven classes of key-source pairs yields the documented keep/insert/conflict table without a panic; a first-present-wins "
+              "assignment to self.X may only be guarded by a test on X itself. Conflicting "
               "values under one map key are outside the property's quantifier."),
         technique="resolved write-effect coverage with data dependence + dominance of the id gate + predicate-abstraction decision table",
         design_ref="§4 C14"),
@@ -44,7 +45,8 @@ CLAIMS = {
               "lattice {Unconstrained, Minimum, Disallowed}^2 (all reachable cells, each outcome compared with the BIP370 table, "
               "height preferred; this also proves the unreachable!() arms dead); the kill set of unique_id (every non-witness TxIn "
               "field extract_tx fills from a signer/updater-mutable PSET field is reset before txid()); the per-field identity of "
-              "from_txin/from_txout composed with extract_tx and the agreement of to_txout with extract_tx; the 0xffffffff "
+              "from_txin/from_txout composed with extract_tx and the agreement of to_txout with extract_tx, including which source wins "
+              "(commitment over explicit field) on all 16 presence patterns in both views; the 0xffffffff "
               "exemption at every reader of the index flag bits. Whole-value tx->PSET->tx equality is decided per field flow only."),
         technique="abstract interpretation over enum discriminants (exhaustive decision table) + field-flow composition of sibling converters",
         design_ref="§4 C08"),
@@ -102,7 +104,9 @@ CLAIMS = {
               "keyed arms reject occupied entries, hash preimages are checked before insertion; framing (magic, separator, order, 0x00 "
               "terminators, NoMorePairs, sanity_check dominating Ok, 10 000 caps); mandatory-field errors; who-may-write rule for the "
               "counts with paired vector operations; tap-tree leaves kept/written/read in DFS order (re-encoding fixpoint); ELIP-100/102 "
-              "getter/setter key agreement; ProprietaryKey and Schnorr-signature codecs. Value codecs that delegate to consensus encoding are C01."),
+              "getter/setter key agreement; ProprietaryKey and Schnorr-signature codecs; the tap-tree reader advances by exactly the byte count "
+              "the script decoder reports (any length-prefix size) and the key-origin reader continues where the leaf-hash vector ended; the "
+              "PublicKey value codec writes the key in the form its `compressed` flag says. Value codecs that delegate to consensus encoding are C01."),
         technique="table bijection between sibling writer/reader extracted from MIR + guard dominance + who-may-write rule",
         design_ref="§4 C07"),
     "C06": dict(
@@ -112,7 +116,8 @@ CLAIMS = {
               "table over len 0..200 x {v0, v1+} and must be {53,65} / 35..=73; padding masks 2^k-1; Display and the parsers agree on layout "
               "(key before program; prefix bytes/offsets of the base58 forms), on the prefix constants compared and on the checksum variant "
               "per witness version; prefix dispatch returns the segwit result without falling through to base58, FromStr tries exactly the "
-              "three networks, versions > 16 are rejected. Character-for-character agreement with independent encoders is not decided."),
+              "three networks, versions > 16 are rejected; a string's HRP matches a network only on equal length and case-insensitive "
+              "character equality. Character-for-character agreement with independent encoders is not decided."),
         technique="evaluated-constant tables + exhaustive decision table over lengths + sibling layout agreement between Display and parsers",
         design_ref="§4 C06"),
     "C12": dict(
